@@ -170,3 +170,33 @@ Theorem C02_scratch_buffer_refuted :
   nth_error (end_view_scratch answers) 0 = nth_error answers 1 /\
   end_view_scratch answers <> answers.
 Proof. exact scratch_buffer_refuted. Qed.
+
+(** *** the one-shot entry points: Cell.Hash / Hash256 / HashString *)
+
+(** Every answer of every history of one-shot requests — the application may
+    write into its cells between the calls, so each step carries the cell array
+    as it is at that moment; failing requests included — is the fresh answer
+    on the present cells: nothing an earlier call did can show. *)
+Theorem C02_one_shot_history_fresh :
+  forall (H : bytes -> bytes) steps,
+  Forall (fun s => refs_forward (fst s)) steps ->
+  one_shot_run H steps = map (fun s => fresh_hash H (fst s) (snd s)) steps.
+Proof. exact one_shot_history_fresh. Qed.
+Print Assumptions C02_one_shot_history_fresh.
+
+(** A package-level scratch map shared by the one-shot calls is unobservable
+    when it is emptied after EVERY call ... *)
+Theorem C02_scratch_cleared_is_one_shot :
+  forall (H : bytes -> bytes) steps, scratch_run H false [] steps = one_shot_run H steps.
+Proof. exact scratch_cleared_is_one_shot. Qed.
+
+(** ... and not when it survives a failed call (seeded mutation C02-r8m1):
+    Hash(top) fails with the depth limit after the sub-tree below was recorded,
+    the application writes into that sub-tree, and the next Hash of it answers
+    the hash of the OLD content. *)
+Theorem C02_shared_scratch_kept_on_error_refuted :
+  os_is_err (nth_error (scratch_run os_id true [] os_steps) 0) = true /\
+  nth_error (scratch_run os_id true [] os_steps) 1 = Some (one_shot os_id (os_cells [true]) 1) /\
+  os_len (nth_error (scratch_run os_id true [] os_steps) 1) <> os_len (nth_error (one_shot_run os_id os_steps) 1) /\
+  scratch_run os_id false [] os_steps = one_shot_run os_id os_steps.
+Proof. exact shared_scratch_kept_on_error_refuted. Qed.
